@@ -138,6 +138,16 @@ CHECKS = {
             'Trusted: recorder in drivers/c15.py (float -> rational projection with off-lattice detection). Bounds equal to a sample are '
             'only used on states whose floats are exact. Whether append/pad/resample accept a call is not part of the statement.',
             'trace validation by TLC + exact rational oracle'),
+    'C16': ('model_checking',
+            'Detector.tla defines charge collection (sum over slices of photons x efficiency, efficiency from a Spectrum via '
+            'Spectrum.tla), the colour of every oversampled sub-pixel from the tiled pattern at its native pixel, channel images, and '
+            'digitisation floor(poly(min(e, sat))) clipped at zero for the four gain forms. Calls on exact data (integers, dyadic '
+            'rationals) are recorded with results, warnings, output dtype and the caller\'s frame afterwards; TLC validates every event '
+            'exactly and checks channels-sum, equal-QE = monochrome and monotonicity theorems on the event data.',
+            'DESIGN.md 5 C16',
+            'Trusted: recorder in drivers/c16.py. saturation_capacity = 0 (read as none by the API) and results outside the requested '
+            'dtype range are outside the domain.',
+            'trace validation by TLC against exact detector arithmetic in TLA+'),
     'C20': ('model_checking',
             'Geometry.tla defines pad/crop (2-D and cubes), sub-array, bounding box, bounding slice with pad and clipping, slice '
             'offset, rebin, centroid (exact rational), mesh, the half-turn / mirror / translation index maps of drawn shapes and '
